@@ -622,7 +622,16 @@ func c05History(r *Run, cfg idxConfig, batches [][]RowOpJ, stream string) bool {
 							conds = append(conds, CondJ{Col: c.Col, Fn: "includes", Val: v})
 						}
 					} else {
-						conds = append(conds, CondJ{Col: c.Col, Fn: "==", Val: cloneValue(src[c.Col])})
+						cond := CondJ{Col: c.Col, Fn: "==", Val: cloneValue(src[c.Col])}
+						if t := c05Table.Col(c.Col); t != nil && t.Type.Kind != "atom" && r.Rng.Intn(3) == 0 {
+							// on an optional, set or map column of an index: includes / excludes, also of nothing (every
+							// row includes the empty set; an index answers equality, not inclusion)
+							cond.Fn = []string{"includes", "excludes"}[r.Rng.Intn(2)]
+							if r.Rng.Intn(2) == 0 {
+								cond.Val = zeroValue(t.Type)
+							}
+						}
+						conds = append(conds, cond)
 					}
 				}
 				switch r.Rng.Intn(4) {
